@@ -603,7 +603,12 @@ def r9_plan_pairing(ctx):
         if isinstance(l, ast.For) and any(True for _ in self_calls(l, {'restore_metadata'})) and not any(isinstance(a, ast.For) for a in ancestors(l)):
             it_names = {n.id for n in ast.walk(l.iter) if isinstance(n, ast.Name)}
             # loop variables bound from the pending mapping (for path, digests in pending.items())
-            lvars = {n.id for n in ast.walk(l.target) if isinstance(n, ast.Name)}
+            # the value variable of `for path, digests in pending.items()` (or of `.values()`)
+            lvars = set()
+            if isinstance(l.iter, ast.Call) and isinstance(l.iter.func, ast.Attribute) and l.iter.func.attr == 'items' and isinstance(l.target, ast.Tuple) and len(l.target.elts) == 2 and isinstance(l.target.elts[1], ast.Name):
+                lvars = {l.target.elts[1].id}
+            elif isinstance(l.iter, ast.Call) and isinstance(l.iter.func, ast.Attribute) and l.iter.func.attr == 'values' and isinstance(l.target, ast.Name):
+                lvars = {l.target.id}
             empty_edges = []
             for i in walk_local(l):
                 if isinstance(i, ast.If):
